@@ -322,7 +322,18 @@ func verifH_FinishCli() {
 	deadline := false
 	for i := 0; i < nops; i++ {
 		sendsBefore := b.snd.msgs
-		switch verifChoice("op", 6) {
+		switch verifChoice("op", 7) {
+		case 6:
+			// a headers frame that the receive loop looked up earlier is dispatched now
+			wasDone := st.done.Load() != nil
+			hadHeaders := st.gotHeaders
+			before := b.hdrTarget
+			st.acceptServerFrame(&tunnelpb.ServerToClient_ResponseHeaders{ResponseHeaders: &tunnelpb.Metadata{
+				Md: map[string]*tunnelpb.Metadata_Values{"hk": {Val: []string{"h"}}}}})
+			if wasDone || hadHeaders {
+				verifCover("late-headers")
+				verifAssert(len(b.hdrTarget) == len(before), "C02+C07.late-headers-frame-has-no-effect")
+			}
 		case 0:
 			err := st.SendMsg(&wrapperspb.BytesValue{Value: []byte{1}})
 			if err == nil {
